@@ -730,6 +730,44 @@ def axisRotation (a : V3 K) (c s : K) (v sh : V3 K) : V3 K :=
   let shp := V3.sub sh (V3.smul (V3.dot a sh) a)
   V3.add shp ((axisRot a c s).mulVec (V3.sub v shp))
 
+/-! ## `FanBeamGeometry.__init__` / `__getitem__`: the vectors kept by slicing (round 5) -/
+
+/-- the part of the state of a `FanBeamGeometry` that `__getitem__` hands back to the constructor
+or that the constructor derives: `d = src_to_det_init` (stored normalised), `axisArg =
+_det_axis_init_arg`, `axis = detector.axis` (normalised by the detector), translation, radii,
+`check_bounds`. -/
+structure FanState (K : Type) where
+  d : V2 K
+  axisArg : Option (V2 K)
+  axis : V2 K
+  t : V2 K
+  rs : K
+  rd : K
+  cb : Bool
+  deriving Repr
+
+/-- `FanBeamGeometry.__init__(src_to_det_init=s2d, det_axis_init=axisArg, …)`: the detector axis
+that was not given is the default `(1, 0)` transformed by `transform_system(s2d, (0, 1), …)`;
+`src_to_det_init` is normalised, the detector normalises its axis. `none` = raises. -/
+def fanCtor [Div K] [LT K] [DecidableLT K] [DecidableEq K] (sqrt : K → K) (tol2 atol : K)
+    (s2d : V2 K) (axisArg : Option (V2 K)) (t : V2 K) (rs rd : K) (cb : Bool) :
+    Option (FanState K) :=
+  match tsMatrix2 sqrt tol2 atol ⟨0, 1⟩ s2d with
+  | none => none
+  | some M =>
+    let ax := match axisArg with
+      | none => M.mulVec ⟨1, 0⟩
+      | some a => a
+    some { d := V2.normalize sqrt s2d, axisArg := axisArg, axis := V2.normalize sqrt ax,
+           t := t, rs := rs, rd := rd, cb := cb }
+
+/-- `FanBeamGeometry.__getitem__`: the constructor is called with `src_to_det_init =
+self.src_to_det_init` (the stored, normalised vector), `det_axis_init = self._det_axis_init_arg`,
+and the stored translation, radii and `check_bounds`. -/
+def fanGetitem [Div K] [LT K] [DecidableLT K] [DecidableEq K] (sqrt : K → K) (tol2 atol : K)
+    (g : FanState K) : Option (FanState K) :=
+  fanCtor sqrt tol2 atol g.d g.axisArg g.t g.rs g.rd g.cb
+
 end ops
 
 end OdlModel.Geometry
